@@ -126,8 +126,18 @@ ShiftInvariant == /\ \A i \in 1..L : /\ EqQ(LineConf(i), LineConfOf(w0, den0, la
                   /\ EqQ(WorstBest, WorstBestOf(w0, den0))
                   /\ UniqueBest(w0) => (UniqueBest(w) /\ EqQ(RunWorstOf(w, den), RunWorstOf(w0, den0)))
                   /\ (T = L) => \A i \in 1..L : EqQ(TrConfOf(w, den, labels, i), TrConfOf(w0, den0, labels, i))
-\* one-hot posteriors that spell the transcription: label i on its aligned frame, blank elsewhere
-OneHotForOf(m, lab, a) == OneHot(m) /\ \A f \in 1..T : m[f][PathOf(lab, a)[f]] = RowSum(m[f])
+\* one-hot posteriors that spell the transcription along a CTC path WITH RUNS (what a CTC network emits: the same character on
+\* several consecutive frames, characters directly adjacent without a blank, runs of different lengths): every frame is hot on
+\* the blank or lies in the run of a character of the transcription, character i is aligned to SOME frame a[i] of its run, the
+\* runs of consecutive characters are different runs (equal neighbours are therefore separated by a blank frame).  The special
+\* case "label i on its aligned frame, blank elsewhere" (single-frame runs, PathOf) is included.
+Hot(m, f, s) == m[f][s] = RowSum(m[f])
+RunAround(m, s, g) == {f \in 1..T : \A h \in (IF f <= g THEN f..g ELSE g..f) : Hot(m, h, s)}
+OneHotForOf(m, lab, a) ==
+    /\ OneHot(m)
+    /\ \A i \in 1..Len(lab) : Hot(m, a[i], lab[i])
+    /\ \A f \in 1..T : Hot(m, f, Blank) \/ \E i \in 1..Len(lab) : f \in RunAround(m, lab[i], a[i])
+    /\ \A i \in 1..(Len(lab) - 1) : RunAround(m, lab[i], a[i]) \cap RunAround(m, lab[i+1], a[i+1]) = {}
 OneHotIsOne == /\ OneHot(w) => (EqQ(WorstBest, One) /\ EqQ(RunWorstOf(w, den), One))
                /\ OneHotForOf(w, labels, al) =>
                      \A i \in 1..L : EqQ(LineConf(i), One) /\ EqQ(LetterConfOf(w, den, labels, al, i), One)
